@@ -1,4 +1,5 @@
 import GnoVerif.Proofs.C21
+import GnoVerif.Proofs.C21Comments
 /-!
 # C21 — Gno's forked Go parser parses exactly like go/parser
 
@@ -25,6 +26,8 @@ writes — checked by the F tie).
   (only a `bailout` is recovered), which is the intended behaviour.
 * `callback_once_per_scan`: once installed, the callback is invoked exactly once per token
   the scanner returns, in stream order.
+* `comments_filed`: with `ParseComments`, whatever the callback, the comment groups collected
+  by this layer, flattened, are exactly the comment tokens before the current token, in order.
 * `callback_misses_init_tokens`, `callback_count_counterexample`: the callback count is NOT
   the token count: `ParseFile2` installs the callback after `p.init`, whose `p.next()` has
   already scanned the first non-comment token and every comment before it (finding
@@ -76,6 +79,25 @@ theorem callback_once_per_scan {ρ κ : Type} (c : Cfg) (cb : Nat → Nat → κ
         = List.range' st.idx ((run c (some cb) prog st k).final.idx - st.idx) := by
   rw [run_char c (some cb) prog st k]
   exact ⟨rfl, scans_fst c prog st⟩
+
+/-! ## 2b. no comment is lost around the patched loop -/
+
+/-- With `ParseComments`, whatever the callback, and for every client that does not overwrite
+`p.tok`: when `ParseFile2` returns control the current token is a non-comment token `p` of the
+stream, and `p.comments`, flattened, is exactly the list of comment tokens before `p`, in source
+order — no comment token is dropped, duplicated or reordered by the layer that carries the
+callback. -/
+theorem comments_filed {ρ κ : Type} (c : Cfg) (hpc : c.parseComments = true) (cb : Nat → Nat → κ → κ)
+    (prog : Prog ρ) (hp : prog.noPoke) (k : κ) :
+    ∃ p, (parse2 c cb prog k).final.pos = some p ∧
+      (parse2 c cb prog k).final.tok = (tokAt c.s p).kind ∧
+      (parse2 c cb prog k).final.tok ≠ tCOMMENT ∧
+      (parse2 c cb prog k).final.comments.flatten = commentsUpTo c p := by
+  rw [(parseFile2_eq_parseFile c cb prog k).2.2]
+  obtain ⟨p, hf, hne⟩ := run_pc c hpc prog hp (afterInit c) (afterInit_pc c hpc)
+  exact ⟨p, hf.1.pos, hf.1.tok, hne, hf.2⟩
+
+example : (drain 7).noPoke := drain_noPoke 7
 
 /-! ## 3. the callback count is not the token count (finding `cb-misses-first`) -/
 
